@@ -39,6 +39,7 @@ HX int h_reduce(int k, const double* x, int n, double* y) {
     case 12: { arr_real r = cumsum(a); put_real(r, y); return r.size(); }
     case 13: { arr_real r = abs2(a); put_real(r, y); return r.size(); }
     case 14: { arr_real r = abs(a); put_real(r, y); return r.size(); }
+    case 16: { arr_real r = cumsum(a, Direction::Reverse); put_real(r, y); return r.size(); }
     default: { arr_real r = round(a); put_real(r, y); return r.size(); }
     }
     H_END
@@ -58,8 +59,37 @@ HX int h_reduce_c(int k, const double* x, int n, double* y) {
     case 7: { arr_cmplx r = complex(real(a), imag(a)); put_cmplx(r, y); return r.size(); }
     case 8: { cmplx_t s = dot(a, mk_cmplx(x + 2 * n, n)); y[0] = s.re; y[1] = s.im; return 1; }
     case 9: y[0] = norm(a, 2); return 1;
+    case 11: { arr_cmplx r = cumsum(a); put_cmplx(r, y); return r.size(); }
+    case 12: { arr_cmplx r = cumsum(a, Direction::Reverse); put_cmplx(r, y); return r.size(); }
     default: { arr_real r = abs(a); put_real(r, y); return r.size(); }
     }
     H_END
 }
 HX double h_angle(double re, double im) { return angle(cmplx_t{re, im}); }
+
+// every power overload on the element (re, im) / re with exponent nr / ni; array overloads get [x, x2] (x2 fixed) and [nr, 1.5]; out: up to 2 complex results
+// kind 0 power(real, real) 1 power(cmplx, real) 2 power(real, int) 3 power(cmplx, int) 4 power(arr_real, real) 5 power(arr_cmplx, real) 6 power(cmplx, arr_real)
+//      7 power(real, arr_real) 8 power(arr_real, arr_real) 9 power(arr_cmplx, arr_real) 10 power(arr_real, int) 11 power(arr_cmplx, int) 12 pow(real, real)
+HX int h_power(int kind, double re, double im, double nr, int ni, double* out) {
+    H_TRY
+    const cmplx_t z{re, im}; const cmplx_t z2{1.25, -0.5};
+    const arr_real xr = {re, 1.25}; const arr_cmplx xc = {z, z2}; const arr_real nn = {nr, 1.5};
+    auto pr = [&](const arr_real& r) { for (int i = 0; i < r.size(); ++i) { out[2 * i] = r[i]; out[2 * i + 1] = 0; } return r.size(); };
+    auto pc = [&](const arr_cmplx& r) { for (int i = 0; i < r.size(); ++i) { out[2 * i] = r[i].re; out[2 * i + 1] = r[i].im; } return r.size(); };
+    switch (kind) {
+    case 0: out[0] = power(re, nr); out[1] = 0; return 1;
+    case 1: { cmplx_t r = power(z, nr); out[0] = r.re; out[1] = r.im; return 1; }
+    case 2: out[0] = power(re, ni); out[1] = 0; return 1;
+    case 3: { cmplx_t r = power(z, ni); out[0] = r.re; out[1] = r.im; return 1; }
+    case 4: return pr(power(xr, nr));
+    case 5: return pc(power(xc, nr));
+    case 6: return pc(power(z, nn));
+    case 7: return pr(power(re, nn));
+    case 8: return pr(power(xr, nn));
+    case 9: return pc(power(xc, nn));
+    case 10: return pr(power(xr, ni));
+    case 11: return pc(power(xc, ni));
+    default: out[0] = pow(re, nr); out[1] = 0; return 1;
+    }
+    H_END
+}
